@@ -171,7 +171,8 @@ package hsrv
 // ---- server construction and one-liners (C05, C12, C20)
 //@ func New(sl, addr, fdir, tmplf, ich, och, iob, certFile, cbAddrs, printIPv6, oneShell) (srv, err)
 //@   props C05 C12 C20
-//@   nilable ich, och, iob
+//@   nilable ich
+//@   assumes default_template_parsed_at_package_init: parsedDefaultTemplate != nil
 //@   ghost lfp string = ""
 //@   ghost listenErr bool = false
 //@   ghost nListen int = 0
